@@ -87,16 +87,6 @@ theorem odd_decomp (m : Nat) (hm : m % 2 = 1) : ∃ r A, 1 ≤ r ∧ m + 1 = A *
       rw [e1, ← e]; omega
     · exact ⟨1, m/4, Nat.le_refl 1, by omega⟩
 
-theorem pos_decomp (x : Nat) (hx : 0 < x) : ∃ t m, m % 2 = 1 ∧ x = m * 2^t := by
-  induction x using Nat.strongRecOn with
-  | _ x ih =>
-    by_cases h : x % 2 = 1
-    · exact ⟨0, x, h, by simp⟩
-    · obtain ⟨t, m, hm, e⟩ := ih (x/2) (by omega) (by omega)
-      refine ⟨t+1, m, hm, ?_⟩
-      have : m * 2^(t+1) = 2 * (m * 2^t) := by ring
-      rw [this, ← e]; omega
-
 /-! ## the bitwise steps of `permute` -/
 
 /-- `x | (x-1)` fills the trailing zeros -/
@@ -164,18 +154,6 @@ theorem xor_and_succ (A s : Nat) :
         omega
       omega
     rw [h1, ih]; ring
-
-theorem tzW_mul_two_pow (m : Nat) (hm : m % 2 = 1) (t w : Nat) (ht : t < w) : tzW w (m * 2^t) = t := by
-  induction t generalizing w with
-  | zero =>
-    obtain ⟨w, rfl⟩ : ∃ w', w = w' + 1 := ⟨w - 1, by omega⟩
-    simp [tzW, hm]
-  | succ t ih =>
-    obtain ⟨w, rfl⟩ : ∃ w', w = w' + 1 := ⟨w - 1, by omega⟩
-    have e : m * 2^(t+1) = 2 * (m * 2^t) := by ring
-    have h1 : ¬ (2 * (m * 2^t)) % 2 = 1 := by omega
-    have h2 : 2 * (m * 2^t) / 2 = m * 2^t := by omega
-    rw [e]; simp only [tzW, h1, if_false, h2]; rw [ih w (by omega)]
 
 theorem two_pow_sub_one_shiftRight (s j : Nat) (h : j ≤ s) : (2^s - 1) >>> j = 2^(s - j) - 1 := by
   rw [Nat.shiftRight_eq_div_pow]
